@@ -110,10 +110,10 @@ def frame_shape_prog(rnd, W):
         cnt[0] += 1
         return f'{p}{cnt[0]}'
 
-    def events(k, depth):
+    def events(k, depth, script=None):
         out = []
-        for _ in range(k):
-            c = rnd.randrange(9)
+        for j in range(k):
+            c = script[j] if script else rnd.randrange(9)
             if c == 0:
                 out += [rnd.choice((writeln(V('n')), write(bin_('>', V('n'), I(0))), ex(call('h3', V('n'), V('n'), V('n'))),
                                     write(I(-(1 << (8 * W - 1)))), ex(call('hb', is_(V('n'), 'byte'), bin_('>', V('n'), I(1))))))]
@@ -124,7 +124,7 @@ def frame_shape_prog(rnd, W):
                 first = {'int': V('n'), 'byte': is_(V('n'), 'byte'), 'bool': bin_('>', V('n'), I(0))}[el]
                 rest = {'int': lambda i: I(i + 2), 'byte': lambda i: I(66 + i), 'bool': lambda i: B(i % 2 == 0)}[el]
                 out += [decl(arr(el), v, ('arr', tuple([first] + [rest(i) for i in range(ln_ - 1)])), True)]
-                names.append((v, 'arr', el))
+                names.append((v, 'arr', el, ln_))
             elif c == 2:
                 v = nm('d')
                 el = rnd.choice(('int', 'byte', 'bool'))
@@ -132,18 +132,26 @@ def frame_shape_prog(rnd, W):
                 f = nm('f')
                 fillv = {'int': bin_('+', V(f), I(40)), 'byte': is_(bin_('+', V(f), I(97)), 'byte'),
                          'bool': bin_('==', bin_('%', V(f), I(2)), I(0))}[el]
-                out += [dyn(el, v, bin_('+', bin_('%', V('n'), I(1)), I(ln_))),
-                        for_up(f, I(0), ln(v), setv(idx(v, V(f)), fillv))]
-                names.append((v, 'arr', el))
+                if rnd.random() < 0.5:
+                    # initialised by direct stores: nothing is pushed after the allocation
+                    el = rnd.choice(('byte', 'byte', 'bool'))
+                    ln_ = rnd.choice((1, 2, 3, 4))
+                    val = (lambda i: C(65 + i)) if el == 'byte' else (lambda i: B(i % 2 == 0))
+                    out += [dyn(el, v, bin_('+', bin_('%', V('n'), I(1)), I(ln_)))]
+                    out += [setv(idx(v, I(i)), val(i)) for i in range(ln_)]
+                else:
+                    out += [dyn(el, v, bin_('+', bin_('%', V('n'), I(1)), I(ln_))),
+                            for_up(f, I(0), ln(v), setv(idx(v, V(f)), fillv))]
+                names.append((v, 'arr', el, ln_))
             elif c in (3, 4):
                 v = nm('c')
                 t = rnd.choice(('byte', 'bool'))
                 out += [decl(t, v, C(rnd.randrange(65, 91)) if t == 'byte' else bin_('>=', V('n'), I(0)))]
-                names.append((v, t, None))
+                names.append((v, t, None, 0))
             elif c == 5:
                 v = nm('x')
                 out += [decl('int', v, bin_('+', V('n'), I(rnd.randrange(100))))]
-                names.append((v, 'int', None))
+                names.append((v, 'int', None, 0))
             elif c == 6 and depth > 0:
                 mark = len(names)
                 inner = events(rnd.randrange(1, 4), depth - 1)
@@ -154,18 +162,40 @@ def frame_shape_prog(rnd, W):
                 out += [write(C('.'))]
         return out
 
+    inline_only = rnd.random() < 0.6
+
+    def show_inline(e, t):
+        # no call, no frame growth: a deeper frame later on would mask an under-sized guard
+        if t == 'bool':
+            return [if_(e, block(write(C('t'))), block(write(C('f'))))]
+        if t == 'byte':
+            return [write(e)]
+        return [write(is_(e, 'byte')), if_(bin_('<', e, I(0)), block(write(C('-'))))]
+
     def readback(ns):
         out = []
-        for v, kind, el in ns:
-            if kind == 'arr':
+        for v, kind, el, ln_ in ns:
+            if kind == 'arr' and inline_only:
+                for k2 in range(ln_):
+                    out += show_inline(idx(v, I(k2)), el)
+            elif kind == 'arr':
                 out += [ex(call('dump', V(v)))]
+            elif inline_only:
+                out += show_inline(V(v), kind)
             elif kind == 'byte':
                 out += [write(V(v))]
             else:
                 out += [write(V(v)), write(C(' '))]
         return out
 
-    body = events(n_ev, 2)
+    if rnd.random() < 0.5:
+        # the shape that exposes stale guards: a deep point first, then an array, then locals that are
+        # deeper than the allocation point but not deeper than the earlier high-water mark
+        script = [0] + ([1] if rnd.random() < 0.4 else []) + [rnd.choice((2, 2, 1))] + \
+                 [rnd.choice((3, 4, 5)) for _ in range(rnd.randrange(1, 4))]
+        body = events(len(script), 0, script)
+    else:
+        body = events(n_ev, 2)
     body += readback(names)
     h3 = func('empty', 'h3', [('int', 'a'), ('int', 'b'), ('int', 'c')], write(bin_('+', V('a'), bin_('*', V('b'), V('c')))))
     hb = func('empty', 'hb', [('byte', 'a'), ('bool', 'b')], write(V('a')), write(V('b')))
